@@ -66,6 +66,7 @@ type Contract struct {
 	HasModifies bool
 	Pure        bool
 	Trusted     string
+	AlsoProps   map[string][]string
 	NoInline    bool
 	Inline      bool
 	NoSchematic bool
@@ -247,6 +248,18 @@ func (db *ContractDB) parseFile(prog *ssa.Program, pkg *packages.Package, f *ast
 			case "safetyprops":
 				if cur != nil {
 					cur.SafetyProps = splitProps(rest)
+				}
+			case "alsoprops":
+				// alsoprops <label> <props…>: the obligation of this function with
+				// that label (a schematic clause, say) also counts for these properties
+				if cur != nil {
+					fs := strings.Fields(rest)
+					if len(fs) >= 2 {
+						if cur.AlsoProps == nil {
+							cur.AlsoProps = map[string][]string{}
+						}
+						cur.AlsoProps[fs[0]] = append(cur.AlsoProps[fs[0]], fs[1:]...)
+					}
 				}
 			case "mode":
 				if cur != nil {
